@@ -329,7 +329,9 @@ def run(case):
                     c.bad("multiplier", "a load enters the residual with multiplier -1", load.assemble.multiplier, -1.0)
                 # call history on the same item: vector(), vector(pressure=2.5), vector(pressure=-0.4), vector(field, pressure=1.5),
                 # vector(): the resultant follows the CURRENT pressure (linear in it) at the unchanged state
-                for kw_, pk in ((dict(), p), (dict(pressure=2.5), 2.5), (dict(pressure=-0.4), -0.4), (dict(field=fb, pressure=1.5), 1.5), (dict(), 1.5)):
+                # (... through exactly zero -- the zero crossing of a sign-changing pressure table, float and integer zero -- and on)
+                for kw_, pk in ((dict(), p), (dict(pressure=2.5), 2.5), (dict(pressure=-0.4), -0.4), (dict(field=fb, pressure=1.5), 1.5), (dict(), 1.5),
+                                (dict(pressure=0.0), 0.0), (dict(), 0.0), (dict(pressure=-0.8), -0.8), (dict(field=fb, pressure=0), 0.0), (dict(pressure=0.6), 0.6)):
                     rk = load.assemble.vector(**kw_).toarray()[:, 0]
                     c.trans += 1
                     c.close(f"{mlab}/p={p}/history/{sorted(kw_)}->{pk}", "follower pressure vector after a call history on one item = (current pressure / first pressure) x first vector", rk, pk / p * r, max(np.abs(r).max() * abs(pk / p), 1e-12), 1e-12)
